@@ -54,3 +54,9 @@ Proof.
   rewrite negb_involutive. reflexivity.
 Qed.
 Print Assumptions tie_T11_goal.
+
+Lemma tie_T11_accessors : forall sc (h : hrow) lvl src dst srv,
+  has_access h lvl = tr_has_access (h_acc h) lvl
+  /\ negb (host_denies sc src dst srv) = tr_host_permits (host_denies sc src dst srv).
+Proof. intros. split; reflexivity. Qed.
+Print Assumptions tie_T11_accessors.
